@@ -139,8 +139,12 @@ def sc_dist(inp, rec):
         if fam.circular:
             grid = np.linspace(lo, lo + 2 * math.pi, 801)
         else:
-            a = x[0] - (x[-1] - x[0]) * 0.05 - s if not math.isfinite(lo) else lo - 0.1 * s
-            grid = np.unique(np.concatenate([np.linspace(a, x[-1] * 1.0 + 3 * s, 600), x, np.geomspace(max(x[0] - (lo if math.isfinite(lo) else 0), 1e-300), max(x[-1] - (lo if math.isfinite(lo) else 0), 1e-299), 200) + (lo if math.isfinite(lo) else 0)]))
+            # linear grid from below the support / far left to beyond the 1-1e-6 quantile, the support points themselves,
+            # and a geometric grid towards the lower bound (resolves small-shape members)
+            lo0 = lo if math.isfinite(lo) else 0.0
+            a = lo - 0.1 * s if math.isfinite(lo) else x[0] - (x[-1] - x[0]) * 0.05 - s
+            geo = np.geomspace(max(x[0] - lo0, 1e-300), max(x[-1] - lo0, 1e-299), 200) + lo0
+            grid = np.unique(np.concatenate([np.linspace(a, x[-1] + 3 * s, 600), x, geo]))
         c = np.asarray(d.cdf(grid), dtype=float)
         dd = np.diff(c)
         j = int(np.argmin(dd))
@@ -153,7 +157,7 @@ def sc_dist(inp, rec):
             rec.check(abs(lo_v) <= 1e-11 and abs(hi_v - 1) <= 1e-11, base + "/cdf.limits", "cdf runs from 0 to 1 over one period",
                       f"cdf(mu-pi)={lo_v!r}, cdf(mu+pi)={hi_v!r}", inp)
         else:
-            far_hi = float(d.cdf(fam.ref_icdf(1 - 1e-13, th) * (1 if not math.isfinite(lo) else 1) + 60 * s + abs(x[-1]) * 10))
+            far_hi = float(d.cdf(float(fam.ref_icdf(1 - 1e-13, th)) + 60 * s + abs(x[-1]) * 10))
             far_lo = float(d.cdf(lo if math.isfinite(lo) else x[0] - 60 * s - 10 * abs(x[0])))
             rec.check(far_hi >= 1 - 1e-9 and far_lo <= 1e-9, base + "/cdf.limits", "cdf runs from 0 to 1",
                       f"far left {far_lo!r}, far right {far_hi!r}", inp)
@@ -278,9 +282,6 @@ def sc_dist(inp, rec):
                     except Exception as e:
                         rec.check(False, case, clause, "raised " + last_line(e), inp)
                         continue
-                    if lnnf_single:
-                        # a silently accepted single override must at least give the constructed instance's numbers
-                        pass
                     rec.check(bit_equal(got, ref_res[m]), case, clause,
                               lambda: f"D({mixed}).{m}(.., {over}) = {np.asarray(got).ravel()[:3]!r}... but D({th}).{m}(..) = {ref_res[m].ravel()[:3]!r}...", inp)
                 # positional form (parameters in documented order, None for 'not given')
